@@ -28,6 +28,24 @@
 // fetched but not shifted. For the shipped parsers the same bound is checked on the number of
 // lexer tokens between the text position reported at the moment of cancellation and the position
 // reported at return (+64 tokens of slack for tokens shifted but not yet reported).
+//
+// Input families: (1) valid long inputs (above); (2) MALFORMED inputs for the recovering
+// cancellable parsers — a generated recovering grammar (errors recovered at the first candidate,
+// errors whose first recovery candidate is rejected, an error inside a block, an unrecoverable
+// error at the end), long malformed js/tm texts, and every 1-token deletion / duplication /
+// foreign-token insertion of short js/tm texts at every moment; the reference is the uncancelled
+// run whatever it returns (nil after recovery or the SyntaxError), error-handler calls are part of
+// the event stream ("!error") and of the clock; tokens discarded by recovery are delivered but
+// not shifted, so the token bound is widened per handler call of the reference run; (3) the
+// PHASE between main-loop shifts and lookahead shifts, which share one counter: k one-token
+// statements + one statement with a runtime lookahead + a long tail for k in 0..600 (quick: every
+// 8th k, 0..5 and all k = 500..520 mod 512), cancelled at the first callbacks and on both sides
+// of every poll boundary — generated grammar (plain and optimizeTables+tokenStream), shipped test
+// and js parsers.
+//
+// A finding whose run polled the context at least twice after the cancellation gets the key
+// prefix "poll-saw-cancellation-but-parse-continued": some poll saw the closed Done channel and
+// its answer was dropped on the way to Parse's return.
 package main
 
 import (
@@ -1461,7 +1479,7 @@ func shippedPart(c *core.Ctx, st *stats) {
 // ---------------------------------------------------------------------------------------------
 
 func run(c *core.Ctx) {
-	c.Rule("generated cancellable parsers (list grammar x cancellableFetch on/off x tokenStream on/off, optimizeTables, a value-returning list, a runtime lookahead (?= P) whose predicate shifts > 1000 tokens, accepting and failing) x inputs of 1100-1600 tokens x EVERY moment s = number of tokens delivered by the lexer(s) at which the context is cancelled (0 = before Parse .. final clock + 3 = never), plus never and an expired deadline context; shipped js/tm/test parsers x 2-3 long inputs x moments counted in listener calls (quick: every 8th + poll boundaries +-2, thorough: every). non-trivial = cancelled run that returned the ctx error after reporting a non-empty proper prefix of the events. states = distinct (parser, input, moment, polls made when the parse stopped); transitions = parses run; traces = parses compared with the uncancelled reference")
+	c.Rule("generated cancellable parsers (list grammar x cancellableFetch on/off x tokenStream on/off, optimizeTables, a value-returning list, a runtime lookahead (?= P) whose predicate shifts > 1000 tokens, accepting and failing) x inputs of 1100-1600 tokens x EVERY moment s = number of tokens delivered by the lexer(s) at which the context is cancelled (0 = before Parse .. final clock + 3 = never), plus never and an expired deadline context; shipped js/tm/test parsers x 2-3 long inputs x moments counted in listener calls (quick: every 8th + poll boundaries +-2, thorough: every); plus malformed inputs (generated recovering grammar, long and short malformed js/tm texts: every moment for the short ones) with the uncancelled run, whatever it returns, as reference; plus the phase family pad x k + lookahead statement + tail, k in 0..600 (quick: strided, all k = 500..520 mod 512), cancelled at the first callbacks and around every poll. non-trivial = cancelled run that returned the ctx error after reporting a non-empty proper prefix of the events. states = distinct (parser, input, moment, polls made when the parse stopped); transitions = parses run; traces = parses compared with the uncancelled reference")
 	c.Assume("generated parsers: the clock is advanced by a lexer-rule action `{ verifTick() }` on every token rule; shipped parsers: by the listener")
 	c.Assume("event lists are compared through a 64-bit FNV-1a chain hash over (type, offset, endoffset)")
 	st := &stats{seen: map[string]bool{}}
